@@ -45,7 +45,7 @@ def plan(tier, seed):
 def required(tier):
     return {"llk_vs_oracle": 1000, "structural_vs_oracle": 1000, "gap_cases": 100, "neg_inf_cases": 5,
             "alleles_vs_oracle": 500, "pedigree_alleles_vs_oracle": 300, "cached_hits": 100, "long_locus_tiny_read_probability_cases": 500,
-            "stream_lookups_checked": 8000, "stream_lookups_hit": 1500, "stream_lookups_allele_index_ge_64": 500, "stream_pedigree_lookups_checked": 2000}
+            "stream_lookups_checked": 8000, "stream_lookups_hit": 1500, "stream_lookups_allele_index_ge_64": 500, "stream_pedigree_lookups_checked": 2000, "stream_high_ploidy_many_haplotypes": 6}
 
 
 def close(a, b):
@@ -361,7 +361,13 @@ def run_stream(tier, seed, spec, col):
         ploidy = int(1 + (si + spec["shard"]) % 8)
         n_pos = 8
         n_haps = int(rng.choice([40, 70, 130, 200, 250]))
-        codes = rng.permutation(256)[:n_haps]
+        if si % 5 == 4:
+            # session 4: pooled ploidies with hundreds of haplotypes (ploidy x bits-per-allele beyond 64)
+            ploidy = int(rng.choice([8, 10, 12]))
+            n_pos = 9
+            n_haps = int(rng.choice([70, 130, 300, 400, 500]))
+            col.count("stream_high_ploidy_many_haplotypes")
+        codes = rng.permutation(1 << n_pos)[:n_haps]
         haps = np.array([[(int(c_) >> j) & 1 for j in range(n_pos)] for c_ in codes], dtype=np.int8)
         n_reads = int(rng.integers(2, 7))
         truth = haps[rng.integers(0, n_haps, size=ploidy)]
